@@ -202,7 +202,25 @@ func (x *Exec) rangeRule(fr *Frame, st *State, spec *SyncMapSpec, mv mapV, fnv V
 	}
 	cfr := &Frame{fn: clo.Fn, regs: map[ssa.Value]Value{}, bind: clo.Bind}
 	havocAll := func(s *State) {
+		x.freshOnly = nil
+		framed := false
 		cells, arrays, points := x.loopWrites2(cfr, s, body)
+		topAtEntry := s.heaptop
+		for _, nm := range sortedKeys(x.freshOnly) {
+			if _, whole := arrays[nm]; whole {
+				continue
+			}
+			srt := x.freshOnly[nm]
+			old := s.arr(nm, srt)
+			nw := Const(freshName(nm), srt)
+			x.pendingTop = append(x.pendingTop, nw.Name)
+			a := Var(freshName("fa"), IntS)
+			q := Forall([]*Term{a}, Implies(Le(a, topAtEntry), Eq(Select(nw, a), Select(old, a))))
+			q.Pat = []*Term{Select(nw, a)}
+			s.assume(q)
+			s.heap[nm] = nw
+			framed = true
+		}
 		for _, cell := range cells {
 			s.cells[cell] = s.fresh(cell.T, "range|"+cell.name)
 		}
@@ -216,7 +234,7 @@ func (x *Exec) rangeRule(fr *Frame, st *State, spec *SyncMapSpec, mv mapV, fnv V
 			x.pendingTop = append(x.pendingTop, s.heap[n].Name)
 		}
 		x.havoc(s, points)
-		if len(names) > 0 || len(points) > 0 {
+		if len(names) > 0 || len(points) > 0 || framed {
 			s.bumpTop()
 		}
 		x.flushTop(s)
